@@ -139,8 +139,22 @@ def p1_binding_and_renaming(ctx: Ctx):
                     carriers.add(tgt.id)
         apps = [k for k in calls_in(loop) if call_name(k) == 'ctx.stmts.append' and k.args
                 and (any(x in mk for x in ast.walk(k.args[0])) or (isinstance(k.args[0], ast.Name) and k.args[0].id in carriers))]
-        good = b[0] == 'arg = self._visit_expr(arg, ctx)' and 'name = subst.get(param.name, param.name)' in ' '.join(b) and len(mk) == 1 and len(apps) == 1
+        nm = next((val for tgt, val in defs if isinstance(tgt, ast.Name) and tgt.id == 'name'), None)
+        renamed = nm is not None and (norm(nm) == 'subst.get(param.name, param.name)' or (
+            isinstance(nm, ast.IfExp) and norm(nm.test) == 'isinstance(param.name, NamedId)' and norm(nm.body) == 'subst.get(param.name, param.name)' and norm(nm.orelse) == 'UnderscoreId()'))
+        good = b[0] == 'arg = self._visit_expr(arg, ctx)' and renamed and len(mk) == 1 and len(apps) == 1
         ctx.check(good, INLINE, loop, q, 'each argument is evaluated in order and bound to the (renamed) parameter before the body', f'loop body: {b}')
+        # ... every one of them: an argument whose parameter is `_` is still an expression the call evaluates
+        parents_l = {c: p for p in ast.walk(loop) for c in ast.iter_child_nodes(p)}
+        skipped = None
+        for k in apps:
+            node = k
+            while node in parents_l and node is not loop:
+                node = parents_l[node]
+                if isinstance(node, ast.If) and 'param.name' in norm(node.test):
+                    skipped = node
+        ctx.check(skipped is None, INLINE, skipped or loop, q, 'the binding is emitted for every parameter, `_` included',
+                  'under `if isinstance(param.name, NamedId)`: the argument of a parameter named `_` is dropped, and with it whatever its evaluation stores')
     # every non-free definition of the callee is renamed with a fresh name
     rn = [s for s in walk_no_nested(fn) if isinstance(s, ast.For) and norm(s.iter) == 'reachability.defs']
     good = False
@@ -442,6 +456,24 @@ def s2_evaluation_order(ctx: Ctx):
         ('g(xs[0]) alone: its own argument', [arg, call], False, False, (), None),
         ('g(xs) + xs[0]: read after the call', [arg, call, ref], False, False, (), None),
     ]
+    # the call's own arguments move ahead with the body: an impure call among them passes the earlier read too
+    inner_call = mk('Call', fn=Obj('Function', name='k', ast='k'))
+    call2 = mk('Call', fn=Obj('Function', name='g', ast='g'), inner=[inner_call])
+    eq = mk('Compare')
+    rows2 = [
+        ('xs[0] + g(k(xs)), g pure, k stores', [ref, inner_call, call2], call2, True, (), 'refuse'),
+        ('xs[0] + g(k(xs)), both pure', [ref, inner_call, call2], call2, True, (inner_call,), None),
+        ('(xs == ys, g(xs)), g stores: the comparison reads the lists', [eq, arg, call], call, False, (), 'refuse'),
+    ]
+    for label, order, target, pure, pure_calls, want in rows2:
+        got = run(order, target, pure, pure_calls)
+        ctx.check((got is None) == (want is None), INLINE, fn, '_reorders', f'{label}: {"refused" if want else "inlined"}',
+                  f'got {got!r}: `xs[0] + f(g(xs))` binds `y = g(xs)` ahead of the read of xs[0]')
+    # an element store evaluates the stored value first and its indices afterwards
+    eo_ia = eo.get('_visit_indexed_assign')
+    seq = [norm(k.args[0]) for k in sorted(calls_in(eo_ia[2]), key=lambda k: (k.lineno, k.col_offset)) if call_name(k) == 'self._visit_expr'] if eo_ia else []
+    ctx.check(seq[:1] == ['stmt.expr'] and len(seq) == 2, INLINE, eo_ia[2] if eo_ia else None, '_EvalOrder._visit_indexed_assign', 'xs[i] = e: e is listed before i',
+              f'visits {seq or "in the inherited order (indices first)"}: `xs[idx(xs)] = bump(xs) + xs[1]` inlines idx ahead of the right-hand side')
     for label, order, _, pure, pure_calls, want in rows:
         try:
             got = run(order, call, pure, pure_calls)
@@ -489,6 +521,11 @@ RULES = [
 from ..selftest import Mutant  # noqa: E402
 
 MUTANTS = [
+    Mutant('arguments-not-counted-as-moved', INLINE, "    if Purity.analyze(e.fn.ast) and all(Purity.analyze_expr(x, def_use) for x in earlier + moved if isinstance(x, Call)):", "    if Purity.analyze(e.fn.ast) and all(Purity.analyze_expr(x, def_use) for x in earlier if isinstance(x, Call)):", 'C09.S2',
+           'finding F104 before its repair: xs[0] + f(g(xs)) with g storing into xs'),
+    Mutant('list-comparison-reads-nothing', INLINE, "Enumerate, Zip, Compare)", "Enumerate, Zip)", 'C09.S2'),
+    Mutant('store-indices-first', INLINE, "        self._visit_expr(stmt.expr, ctx)\n        for index in stmt.indices:\n            self._visit_expr(index, ctx)", "        for index in stmt.indices:\n            self._visit_expr(index, ctx)\n        self._visit_expr(stmt.expr, ctx)", 'C09.S2'),
+    Mutant('underscore-parameter-drops-its-argument', INLINE, "            ctx.stmts.append(bind)\n\n        # bind the return value", "            if isinstance(param.name, NamedId):\n                ctx.stmts.append(bind)\n\n        # bind the return value", 'C09.P1'),
     Mutant('captured-float-closed-over-as-its-repr', 'fpy2/transform/const_fold.py', "        case float() if val == 0 and math.copysign(1.0, val) < 0:\n            # a Python `-0.0` is a negative zero too\n            return Decnum('-0.0', loc)\n        case int() | float():\n            return _rational_literal(Fraction(val), loc)",
            "        case float():\n            return Decnum(repr(val), loc)\n        case int():\n            return _rational_literal(Fraction(val), loc)", 'C09.G3',
            'seeded change C09e: SCALE = 0.1 is closed over as the exact 1/10, and 3 * SCALE changes'),
@@ -516,13 +553,13 @@ MUTANTS = [
     Mutant('callee-ctx-ignored', INLINE, "        if ast.ctx is not None:\n            # overriding context (an FPCore description of one is what it\n            # denotes: a `with` block takes a context, not a description)\n            callee_ctx = ast.ctx.to_context() if isinstance(ast.ctx, FPCoreContext) else ast.ctx\n            stmt = ContextStmt(UnderscoreId(), ForeignVal(callee_ctx, None), ast.body, ast.loc)\n            ctx.stmts.append(stmt)\n        elif ctx.is_ctx_expr:",
            "        if ctx.is_ctx_expr:", 'C09.T1'),
     Mutant('header-call-under-ambient', INLINE, "stmt = ContextStmt(UnderscoreId(), ForeignVal(REAL, None), ast.body, ast.loc)", "stmt = ContextStmt(UnderscoreId(), ForeignVal(ast.ctx, None), ast.body, ast.loc)", 'C09.T1'),
-    Mutant('header-args-under-ambient', INLINE, "                if ctx.is_ctx_expr and not isinstance(arg, Var):", "                if False:", 'C09.T1',
+    Mutant('header-args-under-ambient', INLINE, "            if ctx.is_ctx_expr and not isinstance(arg, Var):", "            if False:", 'C09.T1',
            'the defect repaired by the fix: commit (F36)'),
-    Mutant('header-args-wrapped-in-callee-ctx', INLINE, "                    bind = ContextStmt(UnderscoreId(), ForeignVal(REAL, None), StmtBlock([bind]), e.loc)",
-           "                    bind = ContextStmt(UnderscoreId(), ForeignVal(ast.ctx, None), StmtBlock([bind]), e.loc)", 'C09.T1'),
-    Mutant('header-args-literals-exempt', INLINE, "                if ctx.is_ctx_expr and not isinstance(arg, Var):", "                if ctx.is_ctx_expr and not isinstance(arg, (Var, BinaryOp)):", 'C09.T1'),
-    Mutant('header-arg-bind-not-emitted', INLINE, "                ctx.stmts.append(bind)", "                pass", 'C09.P1'),
-    Mutant('header-args-always-wrapped', INLINE, "                if ctx.is_ctx_expr and not isinstance(arg, Var):", "                if ctx.is_ctx_expr:", 'C09.T1',
+    Mutant('header-args-wrapped-in-callee-ctx', INLINE, "                bind = ContextStmt(UnderscoreId(), ForeignVal(REAL, None), StmtBlock([bind]), e.loc)",
+           "                bind = ContextStmt(UnderscoreId(), ForeignVal(ast.ctx, None), StmtBlock([bind]), e.loc)", 'C09.T1'),
+    Mutant('header-args-literals-exempt', INLINE, "            if ctx.is_ctx_expr and not isinstance(arg, Var):", "            if ctx.is_ctx_expr and not isinstance(arg, (Var, BinaryOp)):", 'C09.T1'),
+    Mutant('header-arg-bind-not-emitted', INLINE, "            ctx.stmts.append(bind)\n\n        # bind the return value", "            pass\n\n        # bind the return value", 'C09.P1'),
+    Mutant('header-args-always-wrapped', INLINE, "            if ctx.is_ctx_expr and not isinstance(arg, Var):", "            if ctx.is_ctx_expr:", 'C09.T1',
            'wrapping a plain variable read as well rounds nothing more: behaviour-preserving', expect='silent'),
     Mutant('chain-tail-unmasked', INLINE, "            self._visit_expr(arg, ctx if i < 2 else tail)\n            for i, arg in enumerate(e.args)", "            self._visit_expr(arg, ctx)\n            for i, arg in enumerate(e.args)", 'C09.S1',
            'finding F42 before its repair: `c = a < b < bump(xs)` runs bump(xs) unconditionally after inlining'),
